@@ -28,7 +28,10 @@ def templates(ctx):
     # non-ASCII characters where a token is expected or right behind the last token (error paths that touch the text)
     U = ['é', 'ß', 'ø', '\u20ac', '\U0001F600']
     for i, (nm, pre) in enumerate([('u-start', ''), ('u-cmp', 'a == '), ('u-and', 'site and '), ('u-lt', 'a <'), ('u-not', 'not '), ('u-path', 'a->'),
-                                   ('u-paren', '(a and '), ('u-after', 'a == 1 '), ('u-weq', 'a *== @x '), ('u-or', 'a or ')]):
+                                   ('u-paren', '(a and '), ('u-after', 'a == 1 '), ('u-weq', 'a *== @x '), ('u-or', 'a or '),
+                                   # ... glued to a name, path segment, ref, symbol, number, date, keyword (no space in between)
+                                   ('u-name', 'site'), ('u-name2', 'a and b'), ('u-seg', 'a->dis'), ('u-ref', 'id == @abc'), ('u-symb', '^site'),
+                                   ('u-num', 'a == 1'), ('u-date', 'a == 2021-03-04'), ('u-kw', 'a and'), ('u-bool', 'a == true'), ('u-rel', 'a? ^b')]):
         T.append({'name': 'sk-' + nm, 'parts': [(pre + U[i % len(U)]).encode('utf-8'), 1]})
         if not q: T.append({'name': 'sk-' + nm + '2', 'parts': [(pre + U[(i + 2) % len(U)]).encode('utf-8'), 1]})
     for name, parts in sk:
